@@ -204,6 +204,12 @@ func recipeJSON(r *Recipe, sb *strings.Builder) {
 	switch r.Kind {
 	case "Point", "SimplePoint":
 		sb.WriteString(`{"type":"Point","coordinates":`)
+		if r.Shape.Units == "null-x" {
+			sb.WriteString(`[null,` + ff(q64(r.Shape.Cy)) + `]`)
+			appendMembers(sb, r)
+			sb.WriteByte('}')
+			return
+		}
 		appendCoord(sb, geometry.Point{X: q64(r.Shape.Cx), Y: q64(r.Shape.Cy)}, dims, 0)
 		appendMembers(sb, r)
 		sb.WriteByte('}')
